@@ -16,6 +16,7 @@ import (
 )
 
 func main() {
+	ev.GuardFor("C04")
 	r := ev.Start("C04")
 	defer r.FinishOnPanic()
 	r.SetDeadline(ev.Pick(r, 40*time.Second, 900*time.Second))
